@@ -107,8 +107,9 @@ DevVals(type) ==
      dv     |-> IF HasDelta(type) THEN DvBad ELSE {},
      sfx    |-> IF type = "deactivate" THEN {FALSE} ELSE {},
      delta  |-> IF HasDelta(type) THEN Deltas \ {DefDelta} ELSE {},
-     from   |-> IF HasSig(type) THEN 1..(MaxLen + 1) ELSE {},
-     until  |-> IF HasSig(type) THEN 1..(MaxLen + 1) ELSE {},
+     \* (the bounds are signed integers: -1 is a bound like any other)
+     from   |-> IF HasSig(type) THEN (1..(MaxLen + 1)) \cup {-1} ELSE {},
+     until  |-> IF HasSig(type) THEN (1..(MaxLen + 1)) \cup {-1} ELSE {},
      m      |-> {"regress", "zero"},
      nuv    |-> IF HasDelta(type) THEN {"equal"} ELSE {},
      aov    |-> IF type \in {"create", "recover"} THEN {"absent", "obj"} ELSE {},
@@ -126,7 +127,7 @@ OpTypes == {"create", "update", "recover", "deactivate"}
 WindowCube ==
     IF Cube
     THEN { [Default(ty) EXCEPT !.from = f, !.until = u, !.m = mm] :
-             ty \in {"update", "recover", "deactivate"}, f \in 0..(MaxLen + 1), u \in 0..(MaxLen + 1),
+             ty \in {"update", "recover", "deactivate"}, f \in (-1)..(MaxLen + 1), u \in (-1)..(MaxLen + 1),
              mm \in {"norm", "zero"} }
     ELSE {}
 
